@@ -125,6 +125,7 @@ int c08_maxbits(int id)
   if (!strcmp(n, "tan") || is("tana_x")) return 62;
   if (!strcmp(n, "atan") || !strcmp(n, "atan2") || !strcmp(n, "hypot") || !strcmp(n, "atan_index_aprox") || !strcmp(n, "atan_aprox")) return 47;
   if (!strcmp(n, "sqrt") || !strcmp(n, "sqrt_abacus") || !strcmp(n, "sqrt_std")) return 47;
+  if (!strcmp(n, "asin") || !strcmp(n, "acos")) return 17;    // mostly inside [-1, 1], where the functions do something
   if (!strcmp(n, "sqrt_aprox")) return 37;
   if (!strcmp(n, "hypot_aprox")) return 22;
   if (!strcmp(n, "ceil")) return 62;
